@@ -117,15 +117,7 @@ Definition probe_verdict (now : N) (s : state) (ws : list rec) (p : probe) : boo
       let ok := all_default obs && sitems_eqb (map to_sitem obs) sp in
       (negb agree, negb ok, if ok then 0 else classify_scan s 1 readTs pw (o_rev o) (o_all o) agree obs sp)
   | PGets readTs pw obs =>
-      (* Txn.Get: pending write first, then the LSM read at readTs *)
-      let model u :=
-        match pending_of pw (sbase u) with
-        | Some p => if deadb now p then None else Some (r_val p)
-        | None => match get s (sbase u) readTs with
-                  | Some r => if deadb now r then None else Some (r_val r)
-                  | None => None
-                  end
-        end in
+      let model u := txn_get now s readTs pw (sbase u) in
       let oeq (a b : option bytes) := match a, b with
                                        | None, None => true
                                        | Some x, Some y => bytes_eqb x y
@@ -135,7 +127,10 @@ Definition probe_verdict (now : N) (s : state) (ws : list rec) (p : probe) : boo
       let ok := forallb (fun kv => oeq (spec_get now ws pw readTs (fst kv)) (snd kv)) obs in
       let bad := map fst (filter (fun kv => negb (oeq (spec_get now ws pw readTs (fst kv)) (snd kv))) obs) in
       (negb agree, negb ok,
-       if ok then 0 else if agree && forallb (fun u => has_dup s (sbase u)) bad then 1 else 0)
+       if ok then 0 else if agree && forallb (fun u => has_dup s (sbase u)) bad then 1
+       else if agree && forallb (fun kv => oeq (spec_get now ws pw readTs (fst kv)) (snd kv)
+                                           || (oeq (spec_get now ws pw readTs (fst kv)) (Some []) && oeq (snd kv) None)) obs
+       then 5 else 0)
   end.
 
 Definition check (c : case) : verdict :=
